@@ -22,6 +22,8 @@ def run_ps(cases, which=("impl", "model"), timeout=30):
     def work(i):
         path = workfile("ps_%d_%d.txt" % (os.getpid(), i))
         open(path, "w").write(cases[i][0] + "\n" + cases[i][1] + "\n")
+        if os.environ.get("VERIF_KEEP_CASES"):          # tools/coverage.py replays them through an instrumented build
+            open(workfile("keep%d_impl_par_%d.txt" % (os.getpid(), i)), "w").write(cases[i][0] + "\n" + cases[i][1] + "\n")
         oi = om = None
         if "impl" in which:
             try:
